@@ -21,8 +21,8 @@ class BuiltinMixin:
         x = a[0]; ty = base_type(x.ty)
         if ty in ("list", "set", "tuple"): return R(st, V(IntV(z3.Length(self.elems(st, x))), "int"))
         if ty == "dict": return R(st, V(IntV(z3.Length(self.dkeys(st, x))), "int"))
-        if ty == "str": return R(st, V(IntV(z3.Length(Val.s(x.t))), "int"))
-        if ty == "bytes": return R(st, V(IntV(z3.Length(Val.bs(x.t))), "int"))
+        if ty == "str": return R(st, V(IntV(z3.Length(vs(x.t))), "int"))
+        if ty == "bytes": return R(st, V(IntV(z3.Length(vbs(x.t))), "int"))
         k = self.reg.lookup(ty, "__len__", self.reg.contracts)
         if k: return self.call_function(st, k, [x], {}, n.lineno)
         raise Unsupported(f"len of {x.ty} at line {n.lineno}")
@@ -49,14 +49,14 @@ class BuiltinMixin:
     def bi_int(self, st, a, kw, n):
         x = a[0]; ty = base_type(x.ty)
         if ty == "int": return R(st, x)
-        if ty == "bool": return R(st, V(IntV(z3.If(Val.b(x.t), 1, 0)), "int"))
+        if ty == "bool": return R(st, V(IntV(z3.If(vb(x.t), 1, 0)), "int"))
         if ty == "float":
-            f = Val.f(x.t)      # int() truncates towards zero
+            f = vf(x.t)      # int() truncates towards zero
             return R(st, V(IntV(z3.If(f >= 0, z3.ToInt(f), -z3.ToInt(-f))), "int"))
         if ty == "str" and self.spec_depth:
-            return R(st, V(IntV(int_of_str(Val.s(x.t))), "int"))
+            return R(st, V(IntV(int_of_str(vs(x.t))), "int"))
         if ty == "str":
-            s = Val.s(x.t)
+            s = vs(x.t)
             ok = st.copy(); ok.assume(is_intstr(s))
             bad = st.copy(); bad.assume(z3.Not(is_intstr(s)))
             out = []
@@ -71,16 +71,16 @@ class BuiltinMixin:
     def bi_float(self, st, a, kw, n):
         x = a[0]; ty = base_type(x.ty)
         if ty == "float": return R(st, x)
-        if ty == "int": return R(st, V(Val.FloatV(z3.ToReal(Val.i(x.t))), "float"))
+        if ty == "int": return R(st, V(Val.FloatV(z3.ToReal(vi(x.t))), "float"))
         if ty == "str" and isinstance(n.args[0], ast.Constant) and n.args[0].value in ("-inf", "inf"):
             return R(st, V(Val.FloatV(z3.RealVal(-10**30 if n.args[0].value == "-inf" else 10**30)), "float"))
         t = x.t
-        return R(st, V(Val.FloatV(z3.If(Val.is_FloatV(t), Val.f(t), z3.ToReal(Val.i(t)))), "float"))
+        return R(st, V(Val.FloatV(z3.If(Val.is_FloatV(t), vf(t), z3.ToReal(vi(t)))), "float"))
 
     def bi_math_modf(self, st, a, kw, n):
         """math.modf(x) = (fractional part, integral part), both floats with the sign of x (mathematical reals)"""
         x = a[0]
-        f = Val.f(x.t) if base_type(x.ty) == "float" else z3.If(Val.is_FloatV(x.t), Val.f(x.t), z3.ToReal(Val.i(x.t)))
+        f = vf(x.t) if base_type(x.ty) == "float" else z3.If(Val.is_FloatV(x.t), vf(x.t), z3.ToReal(vi(x.t)))
         ip = z3.ToReal(z3.If(f >= 0, z3.ToInt(f), -z3.ToInt(-f)))
         return R(st, self.new_list(st, self.mkseq([V(Val.FloatV(f - ip), "float"), V(Val.FloatV(ip), "float")]), "tuple"))
 
@@ -88,7 +88,7 @@ class BuiltinMixin:
         return R(st, V(BoolV(self.truth(st, a[0])), "bool"))
 
     def bi_id(self, st, a, kw, n):
-        return R(st, V(IntV(py_id(Val.r(a[0].t))), "int"))
+        return R(st, V(IntV(py_id(vr(a[0].t))), "int"))
 
     def bi_max(self, st, a, kw, n):
         return self.minmax(st, a, n, True)
@@ -100,9 +100,9 @@ class BuiltinMixin:
         if len(a) < 2:
             raise Unsupported("max/min of an iterable")
         self.need_int(st, a, n.lineno)
-        cur = Val.i(a[0].t)
+        cur = vi(a[0].t)
         for x in a[1:]:
-            y = Val.i(x.t)
+            y = vi(x.t)
             cur = z3.If(y > cur, y, cur) if is_max else z3.If(y < cur, y, cur)
         return R(st, V(IntV(cur), "int"))
 
@@ -174,13 +174,13 @@ class BuiltinMixin:
 
     def key_le(self, a, b):
         if base_type(a.ty) == "int":
-            return Val.i(a.t) <= Val.i(b.t)
+            return vi(a.t) <= vi(b.t)
         le = z3.Function("val_le", Val, Val, z3.BoolSort())
         return le(a.t, b.t)
 
     def bi_hasattr(self, st, a, kw, n):
         f = z3.Function("has_attr", Val, z3.StringSort(), z3.BoolSort())
-        return R(st, V(BoolV(f(a[0].t, Val.s(a[1].t))), "bool"))
+        return R(st, V(BoolV(f(a[0].t, vs(a[1].t))), "bool"))
 
     def bi_getattr(self, st, a, kw, n):
         name = n.args[1]
@@ -195,9 +195,9 @@ class BuiltinMixin:
     def bi_Path(self, st, a, kw, n):
         x = a[0]; ty = base_type(x.ty)
         if ty == "Path": return R(st, x)
-        if ty == "str": return R(st, V(Val.PathV(p_of_str(Val.s(x.t))), "Path"))
+        if ty == "str": return R(st, V(Val.PathV(p_of_str(vs(x.t))), "Path"))
         t = x.t
-        return R(st, V(Val.PathV(z3.If(Val.is_PathV(t), Val.p(t), p_of_str(Val.s(t)))), "Path"))
+        return R(st, V(Val.PathV(z3.If(Val.is_PathV(t), vp(t), p_of_str(vs(t)))), "Path"))
 
     def bi_copy(self, st, a, kw, n):
         """copy.copy: fresh object of the same class with the same field values (shallow)"""
@@ -210,7 +210,7 @@ class BuiltinMixin:
         new = self.alloc(st, cls, x.ty)
         for c in self.reg.mro(cls):
             for f in self.reg.classes.get(c, {}).get("fields", {}):
-                st.write(f, Val.r(new.t), st.read(f, Val.r(x.t)))
+                st.write(f, vr(new.t), st.read(f, vr(x.t)))
         return new
 
     def bi_deepcopy(self, st, a, kw, n):
@@ -247,7 +247,7 @@ class BuiltinMixin:
                         newarr = z3.Const(fresh_name("H_" + f), field_sort(f))
                         o = fresh_int("o")
                         st.assume(qforall([k], z3.Implies(z3.And(0 <= k, k < z3.Length(seq)),
-                                  z3.Select(newarr, addr(k)) == z3.Select(arr, Val.r(seq[k]))), patterns=[addr(k)]))
+                                  z3.Select(newarr, addr(k)) == z3.Select(arr, vr(seq[k]))), patterns=[addr(k)]))
                         st.assume(qforall([o], z3.Implies(z3.Or(o < base, o >= base + z3.Length(seq)), z3.Select(newarr, o) == z3.Select(arr, o)), patterns=[z3.Select(newarr, o)]))
                         st.heap[f] = newarr
                         st.writes.append((f, "fresh"))
@@ -258,9 +258,9 @@ class BuiltinMixin:
             new = self.alloc(st, cls, x.ty)
             for c in self.reg.mro(cls):
                 for f, ft in self.reg.classes.get(c, {}).get("fields", {}).items():
-                    fv = V(st.read(f, Val.r(x.t)), ft)
+                    fv = V(st.read(f, vr(x.t)), ft)
                     cv = self.deep_copy(st, fv, depth + 1)
-                    st.write(f, Val.r(new.t), cv.t)
+                    st.write(f, vr(new.t), cv.t)
             return new
         raise Unsupported(f"deepcopy of {x.ty}")
 
@@ -274,12 +274,12 @@ class BuiltinMixin:
         st.assume(z3.Length(ns) == z3.Length(old) + 1, definitional=True)
         st.assume(ns[z3.Length(old)] == a[0].t, definitional=True)
         st.assume(qforall([k], z3.Implies(z3.And(0 <= k, k < z3.Length(old)), ns[k] == old[k]), patterns=[ns[k]]), definitional=True)
-        st.write("$elems", Val.r(recv.t), ns)
+        st.write("$elems", vr(recv.t), ns)
         return R(st, V(NONE, "none"))
 
     def m_list_extend(self, st, recv, a, kw, lineno):
         it = self.iter_seq(st, a[0])
-        st.write("$elems", Val.r(recv.t), z3.Concat(self.elems(st, recv), self.iter_to_seq(st, it)))
+        st.write("$elems", vr(recv.t), z3.Concat(self.elems(st, recv), self.iter_to_seq(st, it)))
         return R(st, V(NONE, "none"))
 
     def m_list_pop(self, st, recv, a, kw, lineno):
@@ -290,7 +290,7 @@ class BuiltinMixin:
         bad = st.copy(); bad.assume(n == 0)
         out = []
         if self.feasible(ok):
-            ok.write("$elems", Val.r(recv.t), z3.SubSeq(seq, 0, n - 1))
+            ok.write("$elems", vr(recv.t), z3.SubSeq(seq, 0, n - 1))
             out.append(Res(ok, V(seq[n - 1], elem_type(recv.ty))))
         if self.feasible(bad):
             out.append(Res(bad, None, "raise", "IndexError"))
@@ -299,13 +299,13 @@ class BuiltinMixin:
     def m_list_sort(self, st, recv, a, kw, lineno):
         keyfn = kw.get("$keynode")
         seq = self.elems(st, recv)
-        st.write("$elems", Val.r(recv.t), self.sorted_seq(st, seq, None, elem_type(recv.ty)))
+        st.write("$elems", vr(recv.t), self.sorted_seq(st, seq, None, elem_type(recv.ty)))
         return R(st, V(NONE, "none"))
 
     def m_set_add(self, st, recv, a, kw, lineno):
         seq = self.elems(st, recv)
         has = z3.Contains(seq, z3.Unit(a[0].t))
-        st.write("$elems", Val.r(recv.t), z3.If(has, seq, z3.Concat(seq, z3.Unit(a[0].t))))
+        st.write("$elems", vr(recv.t), z3.If(has, seq, z3.Concat(seq, z3.Unit(a[0].t))))
         return R(st, V(NONE, "none"))
 
     def m_set_update(self, st, recv, a, kw, lineno):
@@ -314,7 +314,7 @@ class BuiltinMixin:
         res = z3.Const(fresh_name("upd"), SeqV)
         x = fresh_val("x")
         st.assume(qforall([x], z3.Contains(res, z3.Unit(x)) == z3.Or(z3.Contains(seq, z3.Unit(x)), z3.Contains(other, z3.Unit(x)))))
-        st.write("$elems", Val.r(recv.t), res)
+        st.write("$elems", vr(recv.t), res)
         return R(st, V(NONE, "none"))
 
     def m_set_remove(self, st, recv, a, kw, lineno):
@@ -328,7 +328,7 @@ class BuiltinMixin:
             x = fresh_val("x")
             ok.assume(qforall([x], z3.Contains(res, z3.Unit(x)) == z3.And(z3.Contains(seq, z3.Unit(x)), x != a[0].t)))
             ok.assume(z3.Length(res) == z3.Length(seq) - 1)
-            ok.write("$elems", Val.r(recv.t), res)
+            ok.write("$elems", vr(recv.t), res)
             out.append(Res(ok, V(NONE, "none")))
         if self.feasible(bad):
             out.append(Res(bad, None, "raise", "KeyError"))
@@ -370,41 +370,41 @@ class BuiltinMixin:
 
     # ------------------------------------------------------------------ str methods
     def m_str_endswith(self, st, recv, a, kw, lineno):
-        return R(st, V(BoolV(z3.SuffixOf(Val.s(a[0].t), Val.s(recv.t))), "bool"))
+        return R(st, V(BoolV(z3.SuffixOf(vs(a[0].t), vs(recv.t))), "bool"))
 
     def m_str_startswith(self, st, recv, a, kw, lineno):
-        return R(st, V(BoolV(z3.PrefixOf(Val.s(a[0].t), Val.s(recv.t))), "bool"))
+        return R(st, V(BoolV(z3.PrefixOf(vs(a[0].t), vs(recv.t))), "bool"))
 
     def m_str_encode(self, st, recv, a, kw, lineno):
-        return R(st, V(Val.BytesV(utf8(Val.s(recv.t))), "bytes"))
+        return R(st, V(Val.BytesV(utf8(vs(recv.t))), "bytes"))
 
     def m_str_format(self, st, recv, a, kw, lineno):
         return R(st, self.str_format(st, recv, a + list(kw.values())))
 
     def m_str_strip(self, st, recv, a, kw, lineno):
         f = z3.Function("str_strip", z3.StringSort(), z3.StringSort())
-        return R(st, V(StrV(f(Val.s(recv.t))), "str"))
+        return R(st, V(StrV(f(vs(recv.t))), "str"))
 
     def m_str_lower(self, st, recv, a, kw, lineno):
         f = z3.Function("str_lower", z3.StringSort(), z3.StringSort())
-        return R(st, V(StrV(f(Val.s(recv.t))), "str"))
+        return R(st, V(StrV(f(vs(recv.t))), "str"))
 
     def m_str_join(self, st, recv, a, kw, lineno):
         f = z3.Function("str_join", z3.StringSort(), SeqV, z3.StringSort())
         it = self.iter_seq(st, a[0])
-        return R(st, V(StrV(f(Val.s(recv.t), self.iter_to_seq(st, it))), "str"))
+        return R(st, V(StrV(f(vs(recv.t), self.iter_to_seq(st, it))), "str"))
 
     def m_bytes_hex(self, st, recv, a, kw, lineno):
         f = z3.Function("bytes_hex", BytesS, z3.StringSort())
-        return R(st, V(StrV(f(Val.bs(recv.t))), "str"))
+        return R(st, V(StrV(f(vbs(recv.t))), "str"))
 
     # ------------------------------------------------------------------ pathlib (pure part)
     def m_Path_with_suffix(self, st, recv, a, kw, lineno):
-        return R(st, V(Val.PathV(p_with_suffix(Val.p(recv.t), Val.s(a[0].t))), "Path"))
+        return R(st, V(Val.PathV(p_with_suffix(vp(recv.t), vs(a[0].t))), "Path"))
 
     def m_Path_resolve(self, st, recv, a, kw, lineno):
-        return R(st, V(Val.PathV(p_resolve(Val.p(recv.t))), "Path"))
+        return R(st, V(Val.PathV(p_resolve(vp(recv.t))), "Path"))
 
     def m_Path_absolute(self, st, recv, a, kw, lineno):
         f = z3.Function("p_absolute", PathS, PathS)
-        return R(st, V(Val.PathV(f(Val.p(recv.t))), "Path"))
+        return R(st, V(Val.PathV(f(vp(recv.t))), "Path"))
